@@ -2,7 +2,7 @@ CONSTANTS
 Caps = {1, 2}
 MaxEvents = 3
 MaxReq = 3
-MaxFaults = 10
+MaxFaults = 2
 Mutant = 2
 INIT Init
 NEXT Next
